@@ -2108,11 +2108,130 @@ Proof.
     destruct (Hsp _ _ eq_refl) as (S1 & S2 & S3 & S4 & S5). cbv zeta in S1, S2, S3, S4, S5.
     cbn [ninfo] in Hre. rewrite Hre in *. rewrite i_kind_set_cur, Hk in S4.
     change (n_creates []) with 0 in S1. cbn [ec_end ec_create ec_ccont ec_wcont ec_ocont] in *.
-    repeat split; intros; try lia; [specialize (S4 H); lia|specialize (S5 H); rewrite H in S5; lia].
+    repeat split; intros; try lia; [specialize (S4 H); lia|specialize (S5 H); subst oc; lia].
   - destruct (ed_ok_spec oc fe _ Hok) as [Hsp _].
     destruct (Hsp _ _ eq_refl) as (S1 & S2 & S3 & S4 & S5). cbv zeta in S1, S2, S3, S4, S5.
     cbn [ninfo] in Hre. rewrite Hre in *. rewrite i_kind_set_cur, Hk in S4.
     match goal with H : Forall2 contracts _ _ |- _ => rewrite (contracts_n_creates _ _ H), Hn in S1 end.
     cbn [ec_end ec_create ec_ccont ec_wcont ec_ocont] in *.
-    repeat split; intros; try lia; [specialize (S4 H); destruct ch0; lia|specialize (S5 H); rewrite H in S5; lia].
+    repeat split; intros; try lia; [specialize (S4 H); destruct ch0; lia|specialize (S5 H); subst oc; lia].
+Qed.
+
+(** * 7. The statements of Properties_C18.v *)
+
+Theorem contraction_invariant_fields : forall oc summ, contracting summ -> forall t,
+  i_kind (root_info oc summ t) = i_kind (root_info oc summ_none t) /\
+  i_start (root_info oc summ t) = i_start (root_info oc summ_none t) /\
+  i_end (root_info oc summ t) = i_end (root_info oc summ_none t) /\
+  i_worker (root_info oc summ t) = i_worker (root_info oc summ_none t) /\
+  i_t1 (root_info oc summ t) = i_t1 (root_info oc summ_none t) /\
+  i_tinf (root_info oc summ t) = i_tinf (root_info oc summ_none t) /\
+  i_nodes (root_info oc summ t) = i_nodes (root_info oc summ_none t) /\
+  i_edges (root_info oc summ t) = i_edges (root_info oc summ_none t) /\
+  i_min (root_info oc summ t) = i_min (root_info oc summ_none t) /\
+  i_nchild (root_info oc summ t) = i_nchild (root_info oc summ_none t).
+Proof. intros oc summ Hs t. apply info_eqc_fields, contraction_invariant, Hs. Qed.
+
+Theorem contraction_invariant_settings : forall oc st t,
+  i_t1 (root_info oc (summ_setting st) t) = i_t1 (root_info oc summ_none t) /\
+  i_tinf (root_info oc (summ_setting st) t) = i_tinf (root_info oc summ_none t) /\
+  i_nodes (root_info oc (summ_setting st) t) = i_nodes (root_info oc summ_none t) /\
+  i_edges (root_info oc (summ_setting st) t) = i_edges (root_info oc summ_none t).
+Proof.
+  intros oc st t.
+  destruct (contraction_invariant_fields oc _ (contracting_setting st) t) as (_ & _ & _ & _ & H1 & H2 & H3 & H4 & _).
+  repeat split; assumption.
+Qed.
+
+Theorem contraction_invariant_choices : forall oc ch t,
+  i_t1 (root_info oc (summ_choice ch) t) = i_t1 (root_info oc summ_none t) /\
+  i_tinf (root_info oc (summ_choice ch) t) = i_tinf (root_info oc summ_none t) /\
+  i_nodes (root_info oc (summ_choice ch) t) = i_nodes (root_info oc summ_none t) /\
+  i_edges (root_info oc (summ_choice ch) t) = i_edges (root_info oc summ_none t).
+Proof.
+  intros oc ch t.
+  destruct (contraction_invariant_fields oc _ (contracting_choice ch) t) as (_ & _ & _ & _ & H1 & H2 & H3 & H4 & _).
+  repeat split; assumption.
+Qed.
+
+Definition dag_edge_counts_of (t : tree) : ecounts :=
+  mkEC (edge_count EEnd (dag_of t)) (edge_count ECreate (dag_of t)) (edge_count ECreateCont (dag_of t))
+       (edge_count EWaitCont (dag_of t)) (edge_count EOtherCont (dag_of t)).
+
+Theorem root_edges_dag : forall summ, contracting summ -> forall t, well_nested t ->
+  i_edges (root_info true summ t) = dag_edge_counts_of t.
+Proof.
+  intros summ Hs t Hwf. rewrite (root_edges true summ Hs t Hwf).
+  destruct (dag_edge_counts t Hwf) as (E1 & E2 & E3 & E4 & E5).
+  unfold dag_edge_counts_of. rewrite E1, E2, E3, E4, E5. reflexivity.
+Qed.
+
+Theorem root_edges_dag_partial : forall summ, contracting summ -> forall t, well_nested t ->
+  i_edges (root_info false summ t) =
+  mkEC (edge_count EEnd (dag_of t)) (edge_count ECreate (dag_of t)) (edge_count ECreateCont (dag_of t))
+       (edge_count EWaitCont (dag_of t)) 0.
+Proof.
+  intros summ Hs t Hwf. rewrite (root_edges false summ Hs t Hwf).
+  destruct (dag_edge_counts t Hwf) as (E1 & E2 & E3 & E4 & E5).
+  rewrite E1, E2, E3, E4. reflexivity.
+Qed.
+
+Theorem root_edges_dag_no_other : forall summ, contracting summ -> forall t, well_nested t ->
+  count_kind KOther t = 0 -> i_edges (root_info false summ t) = dag_edge_counts_of t.
+Proof.
+  intros summ Hs t Hwf H0. rewrite (root_edges_dag_partial summ Hs t Hwf).
+  destruct (dag_edge_counts t Hwf) as (_ & _ & _ & _ & E5). unfold dag_edge_counts_of. rewrite E5, H0. reflexivity.
+Qed.
+
+Theorem stat_edges_dag : forall summ, contracting summ -> forall t, well_nested t ->
+  stat_edges true (record true summ [] t) = dag_edge_counts_of t.
+Proof.
+  intros summ Hs t Hwf.
+  destruct (root_stat_edges true true summ Hs t Hwf) as (S1 & S2 & S3 & S4 & S5). cbv zeta in S1, S2, S3, S4, S5.
+  destruct (dag_edge_counts t Hwf) as (E1 & E2 & E3 & E4 & E5).
+  unfold dag_edge_counts_of. apply ec_ext; cbn [ec_end ec_create ec_ccont ec_wcont ec_ocont].
+  - rewrite E1. apply S4. reflexivity.
+  - rewrite E2. exact S1.
+  - rewrite E3. exact S2.
+  - rewrite E4. exact S3.
+  - rewrite E5. apply S5. reflexivity.
+Qed.
+
+Theorem stat_edges_dag_partial : forall oc fe summ, contracting summ -> forall t, well_nested t ->
+  ec_create (stat_edges fe (record oc summ [] t)) = edge_count ECreate (dag_of t) /\
+  ec_ccont (stat_edges fe (record oc summ [] t)) = edge_count ECreateCont (dag_of t) /\
+  ec_wcont (stat_edges fe (record oc summ [] t)) = edge_count EWaitCont (dag_of t) /\
+  (fe = true -> ec_end (stat_edges fe (record oc summ [] t)) = edge_count EEnd (dag_of t)) /\
+  (oc = true -> ec_ocont (stat_edges fe (record oc summ [] t)) = edge_count EOtherCont (dag_of t)).
+Proof.
+  intros oc fe summ Hs t Hwf.
+  destruct (root_stat_edges oc fe summ Hs t Hwf) as (S1 & S2 & S3 & S4 & S5). cbv zeta in S1, S2, S3, S4, S5.
+  destruct (dag_edge_counts t Hwf) as (E1 & E2 & E3 & E4 & E5).
+  rewrite E1, E2, E3, E4, E5. repeat split; assumption.
+Qed.
+
+(** the witnesses of finding C18-stat-edges-lost *)
+Definition lf (s e w : Z) : leaf := mkLeaf s e w.
+Definition st_default : setting := mkSetting 0 (2 ^ 60) 0 100000 0.
+Definition st_all : setting := mkSetting (2 ^ 62) 0 0 100000 0.
+Definition w_end : tree :=
+  Task [Sect [Create (lf 1 3 0) (Task [] (lf 3 6 0))] (lf 3 5 0)] (lf 6 7 1).
+Definition w_other : tree :=
+  Task [Sect [Create (lf 1 3 0) (Task [Other (lf 3 4 1)] (lf 4 6 1))] (lf 3 5 0)] (lf 6 7 0).
+
+Theorem root_edges_refuted : exists t, well_nested t /\
+  i_edges (root_info false summ_none t) <> dag_edge_counts_of t.
+Proof. exists w_other. split; [reflexivity|]. vm_compute. discriminate. Qed.
+
+Theorem stat_edges_refuted :
+  (exists t st, well_nested t /\
+     ec_end (stat_edges false (record false (summ_setting st) [] t)) <>
+     ec_end (stat_edges false (record false summ_none [] t))) /\
+  (exists t st, well_nested t /\
+     ec_ocont (stat_edges false (record false (summ_setting st) [] t)) <>
+     ec_ocont (stat_edges false (record false summ_none [] t))).
+Proof.
+  split.
+  - exists w_end, st_default. split; [reflexivity|]. vm_compute. discriminate.
+  - exists w_other, st_default. split; [reflexivity|]. vm_compute. discriminate.
 Qed.
